@@ -48,7 +48,7 @@ def rule_texts():
 
 def generate(res):
     src = C.read(os.path.join(C.REPO, "src", "braille.rs"))
-    t = G.parse_source(src)
+    t = C.translate(res, "c07", "indicator tables of braille.rs", lambda: G.parse_source(src))
     ok, log = C.build_harness()
     if not ok:
         raise RuntimeError("harness build failed: " + log)
